@@ -336,14 +336,25 @@ def dstats_term(d):
 
 
 def out_term(out):
-    if out is None:
-        return "None"
+    if isinstance(out, str):
+        return f"(RErr {out})"
     rows = "[" + "; ".join(f"({z(c)}, {dstats_term(d)})" for c, d in out["rows"]) + "]"
     allr = "None" if out["all"] is None else f"(Some {dstats_term(out['all'])})"
     bl = "[" + "; ".join(f"({z(c)}, ({'None' if k is None else f'Some {z(k)}'}, {z(a)}, {z(b)}, {z(n)}))"
                          for c, k, a, b, n in out["bl"]) + "]"
     gtf = "[" + "; ".join(f"({z(c)}, ({z(s)}, {z(e)}, {z(i)}))" for c, s, e, i in out["gtf"]) + "]"
-    return f"(Some (mkOut {rows} {allr} {bl} {gtf}))"
+    return f"(ROk (mkOut {rows} {allr} {bl} {gtf}))"
+
+
+def error_kind(stderr):
+    """exception class of an aborted run (small enum shared with Stats.errkind)"""
+    if "VcfNotSortedError" in stderr:
+        return "ENotSorted"
+    if "VcfInvalidChromosome" in stderr:
+        return "EInvalidContig"
+    if "TypeError: '<' not supported between instances of" in stderr and "NoneType" in stderr:
+        return "ETypeError"
+    return "EOther"
 
 
 def case_term(only_snvs, indexed, contigs, groups, given, ids, out):
@@ -406,7 +417,7 @@ def o_spec(only_snvs, recs):
 
 def oracle_l1(only_snvs, groups, given, ids, out):
     """python mirror of Stats.l1_run (search/classification only)."""
-    if out is None:
+    if out is None or isinstance(out, str):
         return False
     gmap = {}
     for c, recs in groups:
